@@ -101,7 +101,12 @@ class Version(object):
             return 1
 
     def __hash__(self):
-        return hash(str(self))
+        # Equal versions must hash equally: '2', '2.0' and '2.0.0' compare
+        # equal, so hash the numbers without their trailing zero padding.
+        nums = self.version_nums
+        while nums and (nums[-1] == 0):
+            nums = nums[:-1]
+        return hash((nums, self.version_extra))
 
     # Comparison operators
 
